@@ -109,7 +109,10 @@ def check_guards(ctx):
         label = "%s: %s" % (q, gid)
         matched = None
         best_loop_problem = None
-        for ifs, test, pol in raising_ifs(fn):
+        if gid == "offset-count":
+            from .C08 import count_guard
+            matched = count_guard(fn)
+        for ifs, test, pol in ([] if matched is not None else raising_ifs(fn)):
             loops = loop_var_chain(ifs, fn)
             rename = {}
             if iter_src is not None:
